@@ -12,6 +12,11 @@ def configs(tier, seed):
         cfgs.append(dict(kind="cluster", n=n, k=k, model="uns", propagate=True, K=2, weight=w, wstride=ws))
         cfgs.append(dict(kind="cluster", n=n, k=k, model="knn", force=False, K=2, weight=w * 3, wstride=ws))
         cfgs.append(dict(kind="cluster", n=n, k=k, model="knn", force=True, K=2, weight=w * 3, wstride=ws))
+    # sample identifiers that are not positions (I_train: permuted rows of a larger table)
+    for n, k, idx in ([(3, 1, [3, 0, 2])] if tier == "quick" else [(3, 1, [3, 0, 2]), (3, 2, [1, 4, 0]), (4, 1, [2, 5, 0, 3])]):
+        w = (n ** n) * 10 ** k
+        cfgs.append(dict(kind="cluster", n=n, k=k, model="uns", propagate=True, K=2, idx=idx, weight=w, wstride=7))
+        cfgs.append(dict(kind="cluster", n=n, k=k, model="knn", force=True, K=2, idx=idx, weight=w * 3, wstride=7))
     # the real fit() end to end on a symbolic distance table (several clusterings on one graph)
     e2e = [("uns", 3, 0, 2, [0, 1, 0], []), ("knn", 3, 1, 1, [0, 1, 0], [1]), ("knn", 3, 1, 2, [0, 1, 0], [1])]
     if tier == "thorough":
